@@ -45,6 +45,10 @@ def run(ck, ctx):
     ck.rule("R05.7", "a queue-time command error always aborts: on the in_transaction edge of the command-parse error arm every "
                      "path sets transaction_errors = true; unknown commands in MULTI do the same")
     ck.nd("equality with sequential execution; isolation against other connections (EXEC is a sequence of independent shard awaits)")
+    ck.rule("R05.12", "the transaction state of an executor is touched only by the transaction commands: `watched_keys` (the WATCH snapshots), "
+                      "`queued_commands` and `in_transaction` are read and written by MULTI / EXEC / DISCARD / WATCH / UNWATCH and the queueing gate of "
+                      "execute() - no data command (FLUSHALL 'releasing' the snapshots, DEL 'forgetting' a watched key) rewrites what EXEC compares "
+                      "against: a snapshot changed behind EXEC's back makes a modified watched key look unmodified")
     ck.rule("R05.11", "the executor's EXEC leaves queuing mode before it replays: `in_transaction = false` dominates the execution of the queued commands "
                       "(a queued command that re-enters the executor - a script's redis.call - must be executed, not queued again and dropped when "
                       "EXEC clears the queue) (shared with C16 R16.7)")
@@ -59,6 +63,7 @@ def run(ck, ctx):
         _rules(ck, prog, cfg)
         _executor_twin(ck, prog, cfg)
         _r0510(ck, prog, cfg)
+        _r0512(ck, prog, cfg)
         from . import c16 as _c16
         from .core import Only as _Only16
         _c16._r167(_Only16(ck, {"R16.7": "R05.11"}), prog, cfg)
@@ -610,3 +615,45 @@ def _r0510(ck, prog, cfg):
                  "equality of %s is not structural (%s): WATCH's `did the key change` test (Option<Value> == snapshot) and every other value "
                  "comparison would treat two different stored values as equal" % (ty, why), f.where(), detail="field-by-field ==")
     ck.floor("R05.10" + _tag(cfg), n, 5)
+
+
+# ------------------------------------------------------------------------------------------------
+TX_OWNERS = {"watched_keys": {"execute_watch", "execute_unwatch", "execute_exec", "execute_discard"},
+             "queued_commands": {"execute", "execute_multi", "execute_exec", "execute_discard"},
+             "in_transaction": {"execute", "execute_multi", "execute_exec", "execute_discard", "execute_watch"}}
+
+
+def _r0512(ck, prog, cfg):
+    EXQ = "redis::executor::CommandExecutor"
+
+    def places(node, out):
+        if isinstance(node, dict):
+            if "l" in node and "p" in node:
+                out.append(node)
+            for v in node.values():
+                places(v, out)
+        elif isinstance(node, list):
+            for v in node:
+                places(v, out)
+    n = 0
+    for f in prog.fns.values():
+        if "::tests::" in f.id or f.crate != "lib":
+            continue
+        out = []
+        places(f.d.get("blocks"), out)
+        seen = set()
+        for pl in out:
+            for e in pl["p"]:
+                if isinstance(e, dict) and e.get("o") == EXQ and e.get("f") in TX_OWNERS:
+                    seen.add(e["f"])
+        if not seen:
+            continue
+        owner = f.id.rsplit("::", 1)[-1] if "{closure" not in f.id else re.sub(r"::\{closure#\d+\}", "", f.id).rsplit("::", 1)[-1]
+        if re.search(r"CommandExecutor::(new|with_shared_script_cache|default|verify_invariants)$", re.sub(r"::\{closure#\d+\}", "", f.id)):
+            continue
+        for fld in sorted(seen):
+            n += 1
+            ck.check(owner in TX_OWNERS[fld], "R05.12", "%s:touches(%s)%s" % (owner, fld, _tag(cfg)),
+                     "%s reads or writes the executor's `%s`: the transaction state belongs to MULTI/EXEC/DISCARD/WATCH/UNWATCH; anything else that "
+                     "edits it changes what EXEC will compare or replay" % (owner, fld), f.where(), detail="owner set %s" % sorted(TX_OWNERS[fld]))
+    ck.floor("R05.12" + _tag(cfg), n, 10)
